@@ -19,6 +19,7 @@ type c06Msg struct {
 	SizeArg  string // "" | "truthful" | "under" | "over"
 	Declared int
 	Token    string
+	Body8    bool // MAIL carries BODY=8BITMIME
 }
 
 type c06Case struct {
@@ -38,10 +39,15 @@ type c06Case struct {
 	// Pipe: the client sends the next command line (NOOP) in the same write as the
 	// end of the message data instead of waiting for the reply first
 	Pipe bool
+	// Helo: the session is opened with HELO instead of EHLO (the limit applies all the same)
+	Helo bool
+	// Linger: before the final small message the client keeps the session alive with a NOOP
+	// every third of the idle timeout for more than two idle timeouts
+	Linger bool
 }
 
 func (k *c06Case) Describe() []string {
-	l := []string{fmt.Sprintf("MaxMessageBytes=%d store=%s %s mail-hook=%q next-command-sent-with-the-data=%v", k.Limit, k.Store, profileString(k.Net), k.Hook, k.Pipe)}
+	l := []string{fmt.Sprintf("MaxMessageBytes=%d store=%s %s mail-hook=%q next-command-sent-with-the-data=%v helo=%v linger=%v", k.Limit, k.Store, profileString(k.Net), k.Hook, k.Pipe, k.Helo, k.Linger)}
 	for i, m := range k.Msgs {
 		l = append(l, fmt.Sprintf("msg%d size=%d (limit%+d) SIZE=%s(%d) token=%s", i, m.Size, m.Size-k.Limit, m.SizeArg, m.Declared, m.Token))
 	}
@@ -105,6 +111,12 @@ func genC06(w *simrt.Choices, tier string, avoid map[string]bool) Case {
 	k.Msgs = append(k.Msgs, c06Msg{Size: 180, Token: fmt.Sprintf("tok%d", n+1)})
 	k.Hook = []string{"", "", "allow", "defer"}[w.Choose(4)]
 	k.Pipe = w.Choose(3) == 0
+	k.Helo = w.Choose(4) == 0
+	k.Linger = w.Choose(5) == 0
+	for i := range k.Msgs {
+		// other MAIL parameters may accompany or replace SIZE
+		k.Msgs[i].Body8 = w.Choose(3) == 0
+	}
 	if w.Choose(3) == 0 {
 		k.Cut = []string{"fin", "rst", "stall"}[w.Choose(3)]
 		k.CutAfter = []int{k.Limit / 2, k.Limit + 1, k.Limit + c06Slack + 50, 2 * k.Limit, 3*k.Limit + 5}[w.Choose(5)]
@@ -150,11 +162,29 @@ func runC06(c *Ctx, cs Case) {
 		}
 		defer cl.close()
 		cl.readReply()
-		cl.cmd("EHLO client.sim")
+		if k.Helo {
+			cl.cmd("HELO client.sim")
+		} else {
+			cl.cmd("EHLO client.sim")
+		}
 		for i, m := range k.Msgs {
+			if k.Linger && i == len(k.Msgs)-1 {
+				// the session stays in use for a long time: it must not be cut off
+				for j := 0; j < 8; j++ {
+					simrt.Sleep(root.SMTP.Timeout / 3)
+					if r := cl.cmd("NOOP"); r.Err != nil || r.Code != 250 {
+						c.Failf("session-unusable", "NOOP %v after the previous command (idle timeout %v) was answered %s (%v)", root.SMTP.Timeout/3, root.SMTP.Timeout, r, r.Err)
+						return
+					}
+				}
+				c.Stat("probe.session_kept_alive_past_two_timeouts", 1)
+			}
 			arg := ""
+			if m.Body8 {
+				arg = " BODY=8BITMIME"
+			}
 			if m.SizeArg != "" {
-				arg = " SIZE=" + strconv.Itoa(m.Declared)
+				arg += " SIZE=" + strconv.Itoa(m.Declared)
 			}
 			sizes[m.Token] = m.Size
 			boxOf[m.Token] = "box" + strconv.Itoa(i)
